@@ -4,6 +4,7 @@
 import PsProofs.IterRun
 import Mathlib.Tactic.NormNum.Prime
 import Mathlib.Tactic.IntervalCases
+import PsModel.Generated.Locks
 
 namespace Ps.Props
 open Ps Ps.Spec
@@ -36,5 +37,18 @@ example : prevSeq 3 0 = 3 ∧ prevSeq 3 1 = 2 ∧ prevSeq 3 2 = 0 ∧ prevSeq 3 
   have h1 : prevPrime 1 = 0 := prevPrime_eq_zero (fun q hq => not_prime_le_one hq)
   have h0 : prevPrime 0 = 0 := prevPrime_eq_zero (fun q hq => not_prime_le_one (by omega))
   simp only [prevSeq, h3, h2, h1, h0, and_self]
+
+/-- **C02 (model sources)** regenerated on every run: digests of the (comment-, hook- and whitespace-normalised) bodies of the
+    functions that the hand-written model behind the theorems of this file mirrors.  An edit to one of
+    them — harmless or not — breaks this obligation; the check then searches for a failing input
+    with the correspondence streams (DESIGN.md section 2, step 5). -/
+theorem C02_model_sources :
+    Gen.modelSources.filter (fun e => e.1 ∈ ["iterator.generate_prev_primes", "iterator.hpp.prev_prime", "IteratorHelper.updatePrev", "IteratorHelper.getPrevDist", "PrimeGenerator.initPrevPrimes", "PrimeGenerator.sievePrevPrimes"]) =
+     [("iterator.generate_prev_primes", "1784049c687ca3b8c7e8"),
+      ("iterator.hpp.prev_prime", "57cdaf17aeb89aae2176"),
+      ("IteratorHelper.updatePrev", "d669145275de3ba547da"),
+      ("IteratorHelper.getPrevDist", "ccd93277a94283fb7359"),
+      ("PrimeGenerator.initPrevPrimes", "c25f6557e8833fa27b53"),
+      ("PrimeGenerator.sievePrevPrimes", "a0a1b531086492c7ee6c")] := by decide
 
 end Ps.Props
